@@ -1,7 +1,6 @@
 package main
 
 import (
-	"strconv"
 	"encoding/json"
 	"fmt"
 	"go/ast"
@@ -10,6 +9,7 @@ import (
 	"go/types"
 	"regexp"
 	"sort"
+	"strconv"
 	"strings"
 
 	"golang.org/x/tools/go/ssa"
